@@ -166,6 +166,13 @@ func (bs *BodySchema) Validate() error {
 	}
 
 	var result *multierror.Error
+	if bs.AnyAttribute != nil {
+		err := bs.AnyAttribute.Validate()
+		if err != nil {
+			result = multierror.Append(result, fmt.Errorf("AnyAttribute: %w", err))
+		}
+	}
+
 	for name, attr := range bs.Attributes {
 		err := attr.Validate()
 		if err != nil {
